@@ -40,7 +40,7 @@ CACHE_RE = re.compile(r'(^|[._])(\w*_cache_?|cached_\w+)$')
 EXCEPTIONS = {
     ('has_perm', 'perm_cache'): "dead cache: looked up by the checked thing x, stored under the permission name; the two key domains are "
                                 "disjoint, so the entry is never served (a missed optimisation, cannot return a wrong answer)",
-    ('Entity.load', 'sql_cache'): "dead cache: looked up by the not-yet-loaded attributes (never primary-key attributes: their bit is 0) and "
+    ('Entity.load', '_load_sql_cache_'): "dead cache: looked up by the not-yet-loaded attributes (never primary-key attributes: their bit is 0) and "
                                   "stored under pk_attrs + attrs; the key domains are disjoint, the entry is never served",
 }
 PIN_EXCEPTIONS = {
@@ -53,17 +53,21 @@ def cache_accesses(fn):
     """-> lookups [(cache expr text, key node, stmt-ish node)], stores [...]"""
     looks, stores = [], []
     pm = parents(fn.node)
+    from ..q import alias_map, deref
+    am = alias_map(fn.node)
+    # a local that merely names the container (`sql_cache = database._constructed_sql_cache`) is the container
+    dotted_ = lambda e: deref(fn.node, e, am) if isinstance(e, ast.Name) and e.id in am and CACHE_RE.search(am[e.id]) else dotted(e)
     for n in walk_no_nested(fn.node):
         if isinstance(n, ast.Call) and isinstance(n.func, ast.Attribute) and n.func.attr == 'get' and n.args:
-            d = dotted(n.func.value)
+            d = dotted_(n.func.value)
             if d and CACHE_RE.search(d): looks.append((d, n.args[0], n))
         elif isinstance(n, ast.Subscript):
-            d = dotted(n.value)
+            d = dotted_(n.value)
             if d and CACHE_RE.search(d):
                 if isinstance(n.ctx, ast.Store): stores.append((d, n.slice, n))
                 elif isinstance(n.ctx, ast.Load): looks.append((d, n.slice, n))
         elif isinstance(n, ast.Call) and isinstance(n.func, ast.Attribute) and n.func.attr == 'setdefault' and n.args:
-            d = dotted(n.func.value)
+            d = dotted_(n.func.value)
             if d and CACHE_RE.search(d): stores.append((d, n.args[0], n)); looks.append((d, n.args[0], n))
     return looks, stores
 
@@ -95,7 +99,7 @@ def key_rule(ctx, only=None, prefix='C05-KEY', floor=20):
             if not ls: continue
             pairs += 1
             qual = fn.qual.split('.<locals>.')[0]
-            exc = EXCEPTIONS.get((qual, d)) or EXCEPTIONS.get((fn.name, d))
+            exc = EXCEPTIONS.get((qual, d.split('.')[-1])) or EXCEPTIONS.get((fn.name, d.split('.')[-1]))
             texts = {norm(k1) for _, k1, _ in ls}
             same = norm(k2) in texts
             detail = ''
@@ -198,7 +202,7 @@ def inputs_rule(ctx, prefix='C05-KEY'):
                     if isinstance(x, ast.Name) and isinstance(x.ctx, ast.Load) and x.id in params}
             miss = sorted(used - have)
             qual = fn.qual.split('.<locals>.')[0]
-            exc = INPUT_EXCEPTIONS.get((qual, d)) or INPUT_EXCEPTIONS.get((fn.name, d))
+            exc = INPUT_EXCEPTIONS.get((qual, d.split('.')[-1])) or INPUT_EXCEPTIONS.get((fn.name, d.split('.')[-1]))
             n += 1
             if miss and exc:
                 ctx.exception(prefix, '%s:%s inputs' % (qual, d), exc)
@@ -388,9 +392,7 @@ def fixed_rule(ctx, prefix='C05-FIXED'):
                 cands = here if cands is None else (cands & here)
             cover[a] |= (cands or set())
     # every function that files SQL text in the constructed-SQL cache (SELECT and bulk DELETE)
-    users = [f for f in repo.rule_funcs() if f.mod.name == 'pony.orm.core' and any(
-             isinstance(x, ast.Subscript) and isinstance(x.ctx, ast.Store) and isinstance(x.value, ast.Attribute) and x.value.attr == '_constructed_sql_cache'
-             for x in walk_no_nested(f.node))]
+    users = [f for f in repo.rule_funcs() if f.mod.name == 'pony.orm.core' and any(d == '_constructed_sql_cache' or d.endswith('._constructed_sql_cache') for d, _k, _n in cache_accesses(f)[1])]
     ctx.need(any(f.qual == 'Query._construct_sql_and_arguments' for f in users), 'C05: Query._construct_sql_and_arguments does not store into _constructed_sql_cache')
     for cs in users:
         keycalls = [s for s in walk_no_nested(cs.node) if isinstance(s, ast.Assign) and any(dotted(t) == 'sql_key' for t in s.targets)]
